@@ -71,7 +71,7 @@ def all_log_configs():
     return [(s, d, lg, lv) for s in (False, True) for d in (False, True) for lg in "ncl" for lv in range(6)]
 
 
-def endp(rng, cfg, v6, in_scope=True):
+def endp(rng, cfg, v6, in_scope=True, own_src=0.0):
     """Client/server addressing towards the responder configured by cfg."""
     if cfg.selfips and in_scope:
         cands = [a for a in cfg.selfips if (len(a) == 16) == v6]
@@ -89,10 +89,10 @@ def endp(rng, cfg, v6, in_scope=True):
             smac = rng.choice([cfg.mac, pkt.BCAST])
     while True:
         cip = rnd_ip6(rng, special=0.03) if v6 else rnd_ip4(rng, special=0.03)
-        k = rng.random()
-        if k < 0.02:
+        k = rng.random() if own_src else 1.0
+        if k < own_src:
             cip = sip                                   # a peer using the very address it talks to (reflection, loopback tests)
-        elif k < 0.04 and cfg.selfips:
+        elif k < 2 * own_src and cfg.selfips:
             same = [a for a in cfg.selfips if (len(a) == 16) == v6]
             if same:
                 cip = rng.choice(same)                  # a peer that is another of the responder's own addresses
